@@ -67,7 +67,7 @@ func (p *storeProp) Rule() string {
 	case "C08":
 		return "scenario = history of Push/Tag/Untag/Delete/GC/SaveIndex on an OCI layout, with reopen (New, NewFromFS, NewFromTar) at drawn quiescent points and at the end; non-trivial = the layout held >=1 tag and >=2 blobs at a reopen; distinct = distinct (event-trace hash, final state)"
 	default:
-		return "scenario = history over an OCI layout with referrer chains, moved tags, tagged referrers, stray blob files, Delete of any descriptor (AutoGC on/off) and GC at any point, compared after every step with an executable garbage-collection model; 10% are two tasks moving one tag at the same time, 12% run GC beside tasks that push a manifest with its children and tag it (porcupine check of the history against the same model, orders that pass a corner the statement leaves open are not judged); non-trivial = a Delete or GC removed at least one node beyond the named one, or GC ran with garbage present; distinct = distinct (event-trace hash, final state)"
+		return "scenario = history over an OCI layout with referrer chains, moved tags, tagged referrers, stray blob files, Delete of any descriptor (AutoGC on/off) and GC at any point, compared after every step with an executable garbage-collection model; a quarter of the GC calls meet one failing disk operation of any kind (reads, listings, writes), after which everything reachable must still be there and the repeated call is judged like any GC; 10% are two tasks moving one tag at the same time, 12% run GC beside tasks that push a manifest with its children and tag it (porcupine check of the history against the same model, orders that pass a corner the statement leaves open are not judged); non-trivial = a Delete or GC removed at least one node beyond the named one, or GC ran with garbage present; distinct = distinct (event-trace hash, final state)"
 	}
 }
 
@@ -365,6 +365,9 @@ func (p *storeProp) Gen(r *Rand, tier string, idx int) any {
 		if sp.Tasks == 1 && sp.Kind == "oci" && sp.AutoSave && p.id == "C08" && (op.Op == "push" || op.Op == "tag" || op.Op == "retag" || op.Op == "untag" || op.Op == "delete" || op.Op == "gc" || op.Op == "saveindex") && r.Chance(0.1) {
 			op.FailMut = r.Range(1, 4)
 		}
+		if sp.Tasks == 1 && sp.Kind == "oci" && p.id == "C09" && op.Op == "gc" && r.Chance(0.25) {
+			op.FailOp = r.Range(1, 30) // one disk operation inside this GC fails, reads included
+		}
 		if sp.Tasks == 1 && sp.Kind == "oci" && p.id != "C06" && p.id != "C09" && r.Chance(0.08) {
 			op = SOp{Op: "reopen", How: pick(r, []string{"new", "fs", "tar"})}
 		}
@@ -390,7 +393,11 @@ func (p *storeProp) Gen(r *Rand, tier string, idx int) any {
 		}
 	}
 	if p.id == "C09" && r.Chance(0.6) {
-		sp.Ops = append(sp.Ops, SOp{Op: "gc"})
+		last := SOp{Op: "gc"}
+		if sp.Tasks == 1 && r.Chance(0.25) {
+			last.FailOp = r.Range(1, 30)
+		}
+		sp.Ops = append(sp.Ops, last)
 	}
 	return sp
 }
@@ -673,8 +680,47 @@ func (sr *storeRun) sequential() *Verdict {
 				eioBefore = simos.Snapshot().Fired["eio"]
 				simos.SetFailAtMut(op.FailMut)
 			}
+			if op.FailOp > 0 && op.Op == "gc" {
+				eioBefore = simos.Snapshot().Fired["eio"]
+				simos.SetFailAtOp(op.FailOp)
+			}
 			got := execOp(ctx, sr.store, g, op)
 			sr.rc.Logf("step %d %s -> %s (model %s)", i, op, got, exp)
+			if op.FailOp > 0 && op.Op == "gc" {
+				simos.SetFailAtOp(0)
+				if simos.Snapshot().Fired["eio"] > eioBefore {
+					// a disk operation inside GC failed - possibly a read. GC may fail and may have done
+					// part of its work; what is reachable must all be there, whatever it answered
+					sr.info.Probes["disk_error_inside_gc"]++
+					sr.info.Nontrivial = true
+					for k, c := range simos.Snapshot().Fired {
+						if strings.HasPrefix(k, "eio") {
+							sr.info.Faults[k] = c
+						}
+					}
+					var d string
+					simrt.Observe(func() {
+						snap := takeSnapshot(sr.store.(storeAPI), g, true, false)
+						ms := modelSnapshot(want)
+						for n, e := range ms.Exists {
+							if e && (!snap.Exists[n] || snap.Data[n] != ms.Data[n]) {
+								d = fmt.Sprintf("n%d is reachable but gone (or unreadable)", n)
+							}
+						}
+						for ref, k := range ms.Resolve {
+							if !strings.HasPrefix(k, "!") && snap.Resolve[ref] != k {
+								d = fmt.Sprintf("Resolve(%q): store=%s model=%s", ref, snap.Resolve[ref], k)
+							}
+						}
+					})
+					if d != "" {
+						v = violation("gc-result-wrong", "", "after step %d %s, in which disk operation %d failed with EIO (result %s): %s\nhistory: %v", i, op, op.FailOp, got, d, opsString(sp.Ops[:i+1]))
+						return
+					}
+					// the same call again, the disk behaving: judged like any GC
+					got = execOp(ctx, sr.store, g, op)
+				}
+			}
 			if op.FailMut > 0 {
 				simos.SetFailAtMut(0)
 				if simos.Snapshot().Fired["eio"] > eioBefore {
